@@ -393,3 +393,23 @@ Theorem C17_quota_index_first_refuted :
                 snd s = [ICreate 7 2; IList 0] /\ i_stored (fst s) = [7%N] /\ i_counted (fst s) = 0.
 Proof. exact index_first_refuted. Qed.
 Print Assumptions C17_quota_index_first_refuted.
+
+(* ---- the admission step is ONE storage call (SetNX, won or lost) ---- *)
+
+(* `C17_quota_locked_never_exceeds` above is about lstep = lstep_gen false: a lost SetNX is a Conflict.  The variant that, after
+   a lost SetNX, looks at the marker again (Exists) and lets the request in when the marker has gone — without taking it — is
+   refuted: three requests of one client, A holds the marker, B's SetNX is lost, A finishes and releases, B's Exists finds the
+   marker gone, C's SetNX succeeds; B and C are both between count and create => 3 active entries under limit 2 *)
+Theorem C17_quota_recheck_refuted :
+  exists sched,
+    let s := run _ _ (lstep_gen true 2) ({| q_n := 0; q_lock := false |}, [l_new false; l_new false; l_new false]) sched in
+    q_n (fst s) = 3 /\ map l_pc (snd s) = [LCreated; LDoneHeld; LDoneHeld].
+Proof. exact quota_recheck_refuted. Qed.
+Print Assumptions C17_quota_recheck_refuted.
+
+(* the code on the same schedule: B is answered Conflict, A and C create, the limit holds *)
+Theorem C17_quota_no_recheck_witness :
+  let s := lrun 2 {| q_n := 0; q_lock := false |} [l_new false; l_new false; l_new false] [0; 0; 1; 1; 0; 0; 0; 1; 1; 2; 2; 2; 1; 2; 2] in
+  fst s = {| q_n := 2; q_lock := false |} /\ map l_pc (snd s) = [LCreated; LBusy; LCreated].
+Proof. exact quota_no_recheck_witness. Qed.
+Print Assumptions C17_quota_no_recheck_witness.
